@@ -201,6 +201,101 @@ fn forge_establish(args: &Value) -> Value {
     }
 }
 
+fn scalar_from_dec(d: &str) -> Scalar {
+    let mut r = [0u64; 4];
+    for ch in d.bytes() {
+        let mut c = (ch - b'0') as u128;
+        for limb in r.iter_mut() {
+            let t = (*limb as u128) * 10 + c;
+            *limb = t as u64;
+            c = t >> 64;
+        }
+    }
+    Scalar::from_raw(r)
+}
+
+/// C01: the fake witness found in witness space (an offset `delta` from an honest witness), run through the PUBLIC
+/// builders against the real merchant: hidden tuples = honest + delta, commitment scalars = honest + delta, revealed
+/// scalars = honest + delta; the challenge is the verifier's own (learnt from a draft through the recording SHA3).
+fn lie_establish(args: &Value) -> Value {
+    let mut w = world(args["seed"].as_u64().unwrap_or(11));
+    let id = cid(&mut w);
+    let ctx = Context::new(b"replay establish");
+    let (cb, mb) = (args["cb"].as_u64().unwrap_or(10), args["mb"].as_u64().unwrap_or(1000));
+    let pk = w.c.merchant_public_key().clone();
+    let b = id.to_bytes();
+    let mut limbs = [0u64; 4];
+    for i in 0..4 {
+        limbs[i] = u64::from_le_bytes(b[8 * i..8 * i + 8].try_into().unwrap());
+    }
+    let cid_s = Scalar::from_raw(limbs);
+    let close = zkabacus_crypto::CLOSE_SCALAR;
+    let nonce = Scalar::random(&mut w.rng);
+    let lock = Scalar::random(&mut w.rng);
+    let d = |n: &str| -> Scalar { args["delta"].get(n).and_then(|v| v.as_str()).map(scalar_from_dec).unwrap_or_else(Scalar::zero) };
+    let mut ms = [cid_s, nonce, lock, Scalar::from(cb), Scalar::from(mb)];
+    let mut mc = [cid_s, close, lock, Scalar::from(cb), Scalar::from(mb)];
+    let mut ks = [Scalar::zero(); 5];
+    for k in ks.iter_mut() {
+        *k = Scalar::random(&mut w.rng);
+    }
+    let mut kc = [ks[0], Scalar::random(&mut w.rng), ks[2], ks[3], ks[4]];
+    let mut kappa = [kc[0], kc[1], kc[3], kc[4]];
+    for i in 0..5 {
+        ms[i] += d(&format!("w.ms{}", i));
+        mc[i] += d(&format!("w.mc{}", i));
+        ks[i] += d(&format!("w.ks{}", i));
+        kc[i] += d(&format!("w.kc{}", i));
+    }
+    for (j, n) in ["w.kappa0", "w.kappa1", "w.kappa3", "w.kappa4"].iter().enumerate() {
+        kappa[j] += d(n);
+    }
+    let agreed_s = [cid_s, nonce, lock, Scalar::from(cb), Scalar::from(mb)];
+    let lies: Vec<String> = (0..5).filter(|i| ms[*i] != agreed_s[*i] && *i != 1 && *i != 2).map(|i| format!("state slot {}", i))
+        .chain((0..5).filter(|i| (*i != 2 && mc[*i] != [cid_s, close, lock, Scalar::from(cb), Scalar::from(mb)][*i])).map(|i| format!("close-state slot {}", i)))
+        .chain(if ms[2] != mc[2] { vec!["revocation lock differs between state and close state".to_string()] } else { vec![] })
+        .collect();
+    let sb = SignatureRequestProofBuilder::<5>::generate_proof_commitments(&mut w.rng, Message::new(ms), &ks.map(Some), &pk);
+    let cbld = SignatureRequestProofBuilder::<5>::generate_proof_commitments(&mut w.rng, Message::new(mc), &kc.map(Some), &pk);
+    let close_bf = cbld.message_blinding_factor();
+    let assemble = |c: Challenge| -> Vec<u8> {
+        let mut bytes = vec![];
+        for x in kappa {
+            bytes.extend_from_slice(&x.to_bytes());
+        }
+        bytes.extend(bincode::serialize(&sb.clone().generate_proof_response(c)).unwrap());
+        bytes.extend(bincode::serialize(&cbld.clone().generate_proof_response(c)).unwrap());
+        bytes
+    };
+    let (cbb, mbb) = (CustomerBalance::try_new(cb).unwrap(), MerchantBalance::try_new(mb).unwrap());
+    let draft: EstablishProof = match bincode::deserialize(&assemble(ChallengeBuilder::new().with_bytes(b"draft").finish())) {
+        Ok(p) => p,
+        Err(e) => return json!({"reproduced": false, "detail": format!("draft does not decode: {}", e)}),
+    };
+    let _ = sha3::take_log();
+    let _ = w.m.initialize(&mut w.rng, &id, cbb, mbb, draft, &ctx);
+    let log = sha3::take_log();
+    let raw = match log.iter().rev().find(|(t, _)| t.len() > 64) {
+        Some((t, _)) => t.clone(),
+        None => return json!({"reproduced": false, "detail": "no challenge transcript recorded"}),
+    };
+    let c = ChallengeBuilder::new().with_bytes(&raw).finish();
+    let bytes = assemble(c);
+    let proof: EstablishProof = bincode::deserialize(&bytes).unwrap();
+    match w.m.initialize(&mut w.rng, &id, cbb, mbb, proof, &ctx) {
+        None => json!({"reproduced": false, "detail": format!("the real merchant REJECTS the lying prover's proof (lies: {:?})", lies)}),
+        Some((closing_sig, _)) => {
+            let raw = bincode::serialize(&closing_sig).unwrap();
+            let bs: BlindedSignature = bincode::deserialize(&raw).unwrap();
+            let sig = bs.unblind(close_bf);
+            let on_hidden = sig.verify(&pk, &Message::new(mc));
+            json!({"reproduced": !lies.is_empty() && on_hidden,
+                   "detail": format!("real initialize ACCEPTED for agreed ({},{}) a proof built by the public builders on hidden tuples with: {:?}; closing signature valid on the hidden close state: {}", cb, mb, lies, on_hidden),
+                   "proof_bytes": hex(&bytes)})
+        }
+    }
+}
+
 #[derive(serde::Serialize, serde::Deserialize)]
 struct VecOfScalars(#[serde(with = "zkchannels_crypto::SerializeElement")] Vec<Scalar>);
 
@@ -265,6 +360,7 @@ fn main() {
     let out = match cmd {
         "unbound-atom" => unbound_atom(&a),
         "forge-establish" => forge_establish(&a),
+        "lie-establish" => lie_establish(&a),
         "selftest" => {
             let r = scenarios::run_all(a["seed"].as_u64().unwrap_or(1));
             let v: Vec<_> = r.iter().map(|(n, b)| json!([n, b])).collect();
